@@ -87,11 +87,12 @@ Fixpoint reload_steps (timeout : Z) (ot : bool) (m : mgr)
       let '(m', v, res) := reload timeout (fuel_for timeout) m ok (sched_of script tail) in
       let agree := (code_of res =? ocode) && (v =? over) && String.eqb (version_conf v ot) ofile in
       (* S: the counter grew, the file carries it, and a reload reported ok was preceded by an
-         exact answer for that version (the first one, requested before the deadline) *)
+         exact answer for that version (the first one, requested before the deadline: whatever happened to
+         the manager before -- it may have gone through Start -- the CONFIGURED timeout bounds every reload) *)
       let spec := (version m <? over) && String.eqb (version_conf over ot) ofile &&
                   (if ocode =? 0 then
                      ok && match first_match over (sched_of script tail) 0 (List.length script + 2) with
-                           | Some _ => true | None => false end
+                           | Some k => start_time (sched_of script tail) 0 k <? timeout + 60 | None => false end
                    else true) in
       let '(a, s) := reload_steps timeout ot {| version := over |} rest orest in
       (agree && a, spec && s)
